@@ -10,6 +10,7 @@ RULE = ("catalogue of tensor ops x call forms x argument grid (enumerated for ra
         "library's own float64 forward (affine ops: exact central differences h=1,2; others: Richardson h,h/2,h/4), subgradient oracle at "
         "max/min ties; distinct key = (op, form, argclass, shape class, value class, g class, req); non-trivial = output has >1 element or "
         "op is a reduction, g is not all-ones and the argument choice is not an identity")
+RULE += (' Added after the seeded rounds: augmented-assignment operator forms, a second backward over the same graph must exactly double every operand gradient, argument containers (index lists, operand lists) mutated by the caller after the call.')
 ASSUMPTIONS = ["the reference derivative is that of the library's own forward pass (its values are decided by C05)",
                "NumPy float64 arithmetic; FD tolerance 1e-9 (affine) / 1e-6 (Richardson) relative to max(1,|phi|,|grad|)",
                "samples whose two FD estimates disagree are inconclusive, not violations; >5% inconclusive for an op makes the run inconclusive"]
